@@ -16,6 +16,16 @@ def edgeMat (c : Csr Rat) : Array (Array Bool) := Id.run do
         m := m.modify i (fun r => r.setIfInBounds j true)
   return m
 
+/-- the bipartite route goes through `sparse.bmat`, which sums duplicate stored entries before the boolean
+    cast: there an edge is a position whose stored values sum to a non-zero value -/
+def edgeMatSum (c : Csr Rat) : Array (Array Bool) := Id.run do
+  let mut m : Array (Array Rat) := Array.replicate c.nRow (Array.replicate c.nCol 0)
+  for i in [0:c.nRow] do
+    for p in c.rowRange i do
+      let j := c.indices.getD p 0
+      m := m.modify i (fun r => r.modify j (· + c.data.getD p 0))
+  return m.map fun r => r.map (· != 0)
+
 def edgeOf (m : Array (Array Bool)) (i j : Nat) : Bool := (m.getD i #[]).getD j false
 
 def optList? (s : String) : Option (Option (List Nat)) :=
@@ -41,7 +51,7 @@ def specGraph (n m ip ix dt tr bip : String) : Option (Nat × (Nat → Nat → B
   let c ← csrRat? n m ip ix dt
   let tr ← bool? tr
   let bip ← bool? bip
-  let mat := edgeMat c
+  let mat := if bip then edgeMatSum c else edgeMat c
   let e0 : Nat → Nat → Bool := if tr then (fun i j => edgeOf mat j i) else edgeOf mat
   let (r, cc) := if tr then (c.nCol, c.nRow) else (c.nRow, c.nCol)
   if bip then some (r + cc, blockEdge r e0) else some (r, e0)
@@ -53,7 +63,7 @@ def handle : Handler
       let c ← csrRat? n m ip ix dt
       let a : DistArgs := { source := ← optList? s, sourceRow := ← optList? sr, sourceCol := ← optList? sc,
                             transpose := ← bool? tr, forceBipartite := ← bool? fb }
-      let mat := edgeMat c
+      let mat := if (routeSpec c.nRow c.nCol a).bipartite then edgeMatSum c else edgeMat c
       match getDistances c.nRow c.nCol (edgeOf mat) a with
       | .error e => some (showErr e)
       | .ok none => some "fuel"
@@ -63,7 +73,7 @@ def handle : Handler
       let c ← csrRat? n m ip ix dt
       let a : PathArgs := { source := ← optList? s, sourceRow := ← optList? sr, sourceCol := ← optList? sc,
                             forceBipartite := ← bool? fb }
-      let mat := edgeMat c
+      let mat := if (routeSpec c.nRow c.nCol a.toDist).bipartite then edgeMatSum c else edgeMat c
       match getShortestPath c.nRow c.nCol (edgeOf mat) a with
       | .error e => some (showErr e)
       | .ok none => some "fuel"
